@@ -95,6 +95,9 @@ func (ca *authenticator) Authenticate(secret []byte, remoteAddr string) (*auth.R
 	code, cred := parts[0], parts[1]
 	key := sanitizeKey(realName + "_" + cred)
 
+	// Expire stale codes first: a code must not be usable past its lifetime.
+	store.PCache.Expire(realName+"_", time.Now().UTC().Add(-ca.lifetime))
+
 	value, err := store.PCache.Get(key)
 	if err != nil {
 		if err == types.ErrNotFound {
